@@ -17,12 +17,12 @@ sys.path.insert(0, os.path.join(os.path.dirname(os.path.abspath(__file__)), ".."
 import vlib, runner
 
 PID = "C19"
-HOWS_ANY = ["new", "new_raw", "new_root", "alloc", "stack"]
+HOWS_ANY = ["new", "new_raw", "new_root", "alloc", "alloc_raw", "alloc_root", "stack"]
 TYPES = ["Int", "Float", "String", "Tuple", "Array", "Probe"]
 ELEM_HOWS = ["aelem", "lelem", "tkey", "tval", "rkey", "rval", "it_array", "it_list", "it_table", "it_tree"]
 OTHER = [("copy", "Int"), ("copy", "String"), ("copy", "Float"), ("static", "Int"), ("static", "String"), ("uitem", "Int"),
          ("it_range", "Int"), ("it_slice", "Int"), ("it_zip", "Int"), ("it_map", "Int"), ("rtinst", "Int")]
-RELEASE = ["del_raw", "dealloc", "dealloc_raw"]
+RELEASE = ["del_raw", "dealloc", "dealloc_raw", "dealloc_root"]
 MANAGED = ["del", "del_root"]
 INPLACE_S = ["resize", "assign", "concat", "append", "printto", "lookfrom", "lookempty", "scanshow"]
 INPLACE_T = ["push", "pop", "popat", "resize", "concat", "assign"]
@@ -35,7 +35,7 @@ def cases(rng, quick):
         inplace = INPLACE_S if ty == "String" else INPLACE_T if ty == "Tuple" else []
         if how == "static":
             inplace = []                                   # the object is the type object itself
-        if how == "alloc" and ty == "Tuple":
+        if how in ("alloc", "alloc_raw", "alloc_root") and ty == "Tuple":
             inplace = ["push", "concat", "assign"]         # freshly allocated: empty
         heap = cls == "heap"
         seqs = []
@@ -62,7 +62,7 @@ def cases(rng, quick):
             if how == "stack" and ty in ("Array", "Probe"):
                 continue
             cls = "stack" if how == "stack" else "heap"
-            reg = how in ("new", "new_root", "alloc")
+            reg = how in ("new", "new_root", "alloc", "alloc_root")
             for ops in ops_for(how, ty, cls, reg):
                 out.append(["reset", "case %s %s %s" % (how, ty, " ".join(ops))])
     for how in ELEM_HOWS:
